@@ -5,6 +5,7 @@ import (
 	"math/rand"
 	"os"
 	"path/filepath"
+	"sort"
 	"strings"
 	"time"
 
@@ -109,19 +110,31 @@ type crashResult struct {
 	Listed     []string
 	Parsed     []SvcState
 	ParseErr   string
+	// continuation after the restart: one service is removed, then the file is read again
+	Removed    string
+	RemoveErr  string
+	AfterNames []string
+	AfterErr   string
 }
 
 // postC12 restores a fresh router from every crash copy (in the bubble, hooks off).
 func postC12(w *World) {
 	for i, cc := range w.Crashes {
 		cr := crashResult{CrashCopy: cc}
+		// what the killed process leaves behind: the state file (if any) and its
+		// temporary / backup siblings, in a directory of their own
+		dir := filepath.Join(w.Dir, fmt.Sprintf("crash-%d", i))
+		os.MkdirAll(dir, 0o755)
+		path := filepath.Join(dir, "state.json")
+		for suffix, c := range cc.Others {
+			os.WriteFile(path+suffix, c, 0o644)
+		}
 		if !cc.Missing {
 			if st, err := ParseState(cc.Content); err != nil {
 				cr.ParseErr = err.Error()
 			} else {
 				cr.Parsed = st
 			}
-			path := filepath.Join(w.Dir, fmt.Sprintf("crash-%d.json", i))
 			os.WriteFile(path, cc.Content, 0o644)
 			func() {
 				defer func() {
@@ -132,13 +145,39 @@ func postC12(w *World) {
 				rt := server.NewRouter(path)
 				if err := rt.RestoreLastSavedState(); err != nil {
 					cr.RestoreErr = err.Error()
-				} else {
-					for name := range rt.ListActiveServices() {
-						cr.Listed = append(cr.Listed, name)
+					return
+				}
+				for name := range rt.ListActiveServices() {
+					cr.Listed = append(cr.Listed, name)
+				}
+				sort.Strings(cr.Listed)
+				// The restarted proxy goes on taking commands: remove one service
+				// and read the file again. (Only for a sample of the copies: each
+				// continuation costs a restore.)
+				if len(cr.Listed) > 0 && (len(cc.Others) > 0 || i%4 == 0) {
+					cr.Removed = cr.Listed[0]
+					if err := rt.RemoveService(cr.Removed); err != nil {
+						cr.RemoveErr = err.Error()
+					}
+					if b, err := os.ReadFile(path); err != nil {
+						cr.AfterErr = err.Error()
+					} else if st, err := ParseState(b); err != nil {
+						cr.AfterErr = err.Error()
+					} else {
+						for _, sv := range st {
+							cr.AfterNames = append(cr.AfterNames, sv.Name)
+						}
+						sort.Strings(cr.AfterNames)
+					}
+				}
+				for _, name := range cr.Listed {
+					if name != cr.Removed {
+						rt.RemoveService(name) // stops the restored services' health checks
 					}
 				}
 			}()
 		}
+		os.RemoveAll(dir)
 		w.CrashResults = append(w.CrashResults, cr)
 	}
 }
@@ -202,6 +241,9 @@ func checkC12(r *RunResult) []Violation {
 	reached := false
 	for _, cr := range w.CrashResults {
 		reached = true
+		if strings.HasPrefix(cr.Point, "fs@") {
+			r.Probes["crash_before_a_file_operation"]++
+		}
 		if cr.Point == "snapshot.created" || cr.Point == "snapshot.beforeRename" || cr.Point == "snapshot.written" {
 			r.Probes["crash_inside_write"]++
 		}
@@ -251,6 +293,23 @@ func checkC12(r *RunResult) []Violation {
 				out = append(out, Violation{Prop: "C12", Clause: clause, Sig: cr.Point,
 					Msg: fmt.Sprintf("%s: the file describes service %s as %s; allowed: %v", where, s, g, sortedKeys(al))})
 				break
+			}
+		}
+		if cr.Removed != "" {
+			r.Probes["restart_then_command"]++
+			if len(cr.Others) > 0 {
+				r.Probes["restart_with_leftover_files"]++
+			}
+			want := []string{}
+			for _, n := range cr.Listed {
+				if n != cr.Removed {
+					want = append(want, n)
+				}
+			}
+			if cr.RemoveErr != "" || cr.AfterErr != "" || strings.Join(cr.AfterNames, ",") != strings.Join(want, ",") {
+				out = append(out, Violation{Prop: "C12", Clause: "command-after-restart-not-persisted", Sig: cr.Point,
+					Msg: fmt.Sprintf("%s (left behind besides the state file: %v): the proxy restarted from it listed %v; `remove %s` then returned %q, and the state file afterwards lists %v %s; expected %v",
+						where, sortedKeys(cr.Others), cr.Listed, cr.Removed, cr.RemoveErr, cr.AfterNames, cr.AfterErr, want)})
 			}
 		}
 		if len(cr.Listed) != len(got) && cr.RestoreErr == "" && !cr.Missing {
